@@ -29,15 +29,7 @@ def write_env(prog, f_write):
         outs.append((s_err, mk_err(Agg({0: Str(str_lit('"Other"'))}, 'IoError'))))
         return outs
 
-    def err_kind(ex, st, fn, argv):
-        e = deref(ex, st, argv[0])
-        ks = []
-        for bb in f_write.blocks.values():
-            if bb.term.kind == 'switch' and len(bb.term.data['targets']) == 1 and bb.term.data['otherwise'] is not None and bb.term.data['targets'][0][0] > 1:
-                ks.append(bb.term.data['targets'][0][0])
-        if len(ks) != 1:
-            raise Unsupported(f"cannot identify the ErrorKind::WouldBlock test in write_to_stream ({ks})")
-        return [(st, Enum(ks[0] if lit_text(e.fields[0].s) == '"WouldBlock"' else ks[0] + 1, {}, 'ErrorKind'))]
+    err_kind = io_error_kind_stub(prog)
     S.append((r'^<S as (std::io::)?Write>::write$|^<VerifStream as (std::io::)?Write>::write$', write_stub))
     S.append((r'^(std::io::)?(error::)?Error::kind$', err_kind))
     S.append((r'^HeartbeatTimers::record_tx_activity$', lambda e, s, f, a: [(s, Unit())]))
@@ -71,60 +63,96 @@ def body(ctx):
 
 
 def write_loop(ctx, prog, viol):
-    """induction over the write loop: k = 1, 2 iterations from an arbitrary non-empty buffer"""
+    """induction over the write loop, independent of how the code names its variables: the loop head and the locals that carry
+    state across iterations are found by control-flow / liveness analysis of the MIR; the path is stopped at its first arrival at the
+    head, the carried cursor is replaced by an arbitrary value c0 <= L (bytes accepted by earlier iterations) and 2 / 3 further
+    iterations are executed under every short-write / would-block / error pattern"""
+    from mirsym.liveness import loop_heads, loop_carried
+    from mirsym.engine import INT_TYPES
     f = prog.method('Inner', 'write_to_stream')
-    for k in (1, 2, 3):
-        ex = io_executor(ctx, prog, unwind=k + 2, extra=write_env(prog, f))
-        ex.cut_revisit = (re.escape(f.name) + '$', k)
-        st, w = build_steady(prog, [])
-        a0, L = w.outbuf.abs, w.outbuf.len
-        st.pc.append(z3.ULE(L, 1 << 40))
-        # the buffer may already be sealed (a close is queued): draining must work all the same
-        ob_ = field(prog, w.inner.value, 'io_loop::Inner', 'outbuf')
-        ob_.fields[prog.types.fields('SealableOutputBuffer').index('sealed')] = Bool(sym('sealed0', z3.BoolSort()))
+    heads = loop_heads(f)
+    if not heads:
+        raise Unsupported('no loop found in write_to_stream')
+    head = heads[0]
+    carried = loop_carried(f, head)
+    inductive = len(carried) == 1 and f.locals[carried[0]] in INT_TYPES
+    fname = re.escape(f.name) + '$'
+    st, w = build_steady(prog, [])
+    a0, L = w.outbuf.abs, w.outbuf.len
+    st.pc.append(z3.ULE(L, 1 << 40))
+    # the buffer may already be sealed (a close is queued): draining must work all the same
+    ob_ = field(prog, w.inner.value, 'io_loop::Inner', 'outbuf')
+    ob_.fields[prog.types.fields('SealableOutputBuffer').index('sealed')] = Bool(sym('sealed0', z3.BoolSort()))
+    args = [Ref(w.inner), Ref(Cell(Unit(), 'stream'))]
+    if inductive:
+        cur = carried[0]
+        width = INT_TYPES[f.locals[cur]][0]
+        ex0 = io_executor(ctx, prog, unwind=4, extra=write_env(prog, f))
+        ex0.cut_block = (fname, head, 1)
+        starts = [s for (s, rv) in ex0.run(st, f, args, bind={'S': 'VerifStream'}) if isinstance(rv, Panic) and rv.kind == 'cut']
+        if not starts:
+            raise Unsupported('write loop: the loop head is not reached')
+        ks = (1, 2)
+    else:
+        # several locals carry state across iterations: their mutual invariant is not known, so no inductive step; the loop is
+        # unrolled from the function entry instead (stated bound: up to 4 iterations)
+        ctx.bound('write_loop', f"no inductive step (loop-carried locals {[(l, f.locals[l]) for l in carried]}): unrolled from entry, <= 4 iterations")
+        cur, width, starts = None, 64, [st]
+        ks = (1, 2, 3)
+    c0 = z3.BitVec('accepted.before', width) if inductive else z3.BitVecVal(0, 64)
+    for k in ks:
+        ex = io_executor(ctx, prog, unwind=k + 3, extra=write_env(prog, f))
+        ex.cut_revisit = (fname, k)
         n = 0
-        for (s, rv) in ex.run(st, f, [Ref(w.inner), Ref(Cell(Unit(), 'stream'))], bind={'S': 'VerifStream'}):
-            n += 1
-            w1 = s.roots['w']
-            tr = s.trace
-            accepted = b64(0)
-            conds = []
-            for t in tr:
-                if t[0] == 'write':
-                    # the slice offered is exactly the not-yet-accepted remainder: no gap, no repeat
-                    conds += [t[1] == a0 + accepted, t[2] == L - accepted, z3.UGT(t[2], 0)]
-                elif t[0] == 'ok':
-                    accepted = accepted + t[1]
-            last = tr[-1][0] if tr else None
-            ob = w1.outbuf
-            out = err_name(prog, rv)
-            if isinstance(rv, Panic) and rv.kind == 'cut':
-                fr = s.cut_frames[0]
-                pos = fr.locals[fr.func.debug['pos']].value
-                conds += [pos.bv == accepted, z3.ULE(accepted, L), ob.abs == a0, ob.len == L]
-                label = 'continue'
-            elif isinstance(rv, Panic):
-                conds = [z3.BoolVal(False)]
-                label = 'panic'
-            elif out == 'Ok' and last == 'wouldblock':
-                # exactly the accepted prefix is dropped, the rest stays queued in place
-                conds += [ob.abs == a0 + accepted, ob.len == L - accepted]
-                label = 'wouldblock'
-            elif out == 'Ok':
-                # everything was accepted (or there was nothing to write): the buffer is cleared
-                conds += [accepted == L, ob.len == 0, ob.abs == a0 + L, z3.BoolVal(last in ('ok', None))]
-                label = 'flushed'
-            elif out == 'IoErrorWritingSocket':
-                conds += [z3.BoolVal(last == 'err'), ob.abs == a0, ob.len == L]
-                label = out
-            else:
-                conds = [z3.BoolVal(False)]
-                label = out
-            m = ctx.decide(f"c01.write.k{k}#{n}:{label}", s.pc, z3.And(*conds),
-                           group='write loop: each slice offered to the transport is exactly the unaccepted remainder; would-block drops exactly the accepted prefix; a full flush clears; a write error is IoErrorWritingSocket and drops nothing',
-                           sample={'iterations': k, 'events': [t[0] for t in tr], 'result': label})
-            if m is not None:
-                viol.append(('write-loop', k, label, [t[0] for t in tr], ctx.explain(m, conds)[:3]))
+        for s0 in starts:
+            s0 = s0.fork()
+            if inductive:
+                s0.cut_frames[0].locals[cur].value = Int(c0, width, False)
+                s0.pc.append(z3.ULE(c0, L))
+                s0.trace = []
+            for (s, rv) in (ex.resume(s0) if inductive else ex.run(s0, f, [Ref(s0.roots['w'].inner), Ref(Cell(Unit(), 'stream'))], bind={'S': 'VerifStream'})):
+                n += 1
+                w1 = s.roots['w']
+                tr = s.trace
+                accepted = c0
+                conds = []
+                for t in tr:
+                    if t[0] == 'write':
+                        # the slice offered is exactly the not-yet-accepted remainder: no gap, no repeat
+                        conds += [t[1] == a0 + accepted, t[2] == L - accepted, z3.UGT(t[2], 0)]
+                    elif t[0] == 'ok':
+                        accepted = accepted + t[1]
+                last = tr[-1][0] if tr else None
+                ob = w1.outbuf
+                out = err_name(prog, rv)
+                if isinstance(rv, Panic) and rv.kind == 'cut':
+                    if inductive:
+                        pos = s.cut_frames[0].locals[cur].value
+                        conds.append(pos.bv == accepted)
+                    conds += [z3.ULE(accepted, L), ob.abs == a0, ob.len == L]
+                    label = 'continue'
+                elif isinstance(rv, Panic):
+                    conds = [z3.BoolVal(False)]
+                    label = 'panic'
+                elif out == 'Ok' and last == 'wouldblock':
+                    # exactly the accepted prefix is dropped, the rest stays queued in place
+                    conds += [ob.abs == a0 + accepted, ob.len == L - accepted]
+                    label = 'wouldblock'
+                elif out == 'Ok':
+                    # everything was accepted (or there was nothing to write): the buffer is cleared
+                    conds += [accepted == L, ob.len == 0, ob.abs == a0 + L, z3.BoolVal(last in ('ok', None))]
+                    label = 'flushed'
+                elif out == 'IoErrorWritingSocket':
+                    conds += [z3.BoolVal(last == 'err'), ob.abs == a0, ob.len == L]
+                    label = out
+                else:
+                    conds = [z3.BoolVal(False)]
+                    label = out
+                m = ctx.decide(f"c01.write.k{k}#{n}:{label}", s.pc, z3.And(*conds),
+                               group='write loop (inductive step from the loop head with any number of bytes already accepted): each slice offered to the transport is exactly the unaccepted remainder; would-block drops exactly the accepted prefix; a full flush clears; a write error is IoErrorWritingSocket and drops nothing',
+                               sample={'iterations': k + 1, 'events': [t[0] for t in tr], 'result': label})
+                if m is not None:
+                    viol.append(('write-loop', k, label, [t[0] for t in tr], ctx.explain(m, conds)[:3]))
         ctx.extra[f'write_paths_k{k}'] = n
 
 
